@@ -132,6 +132,10 @@ def build(case, ctxvals):
     if getattr(c, "loop", False):
         # an enclosing loop whose variable nobody reads (agnostic corner i): only its *presence* matters
         page_nodes = (("For", "u", "1", tuple(page_nodes)),)
+        if c.loop in NAMES:
+            # two nested loops: the OUTER one binds a name everybody reads.  Only the innermost loop's layer is the
+            # agnostic corner (i); a farther loop's variable is an ordinary surrounding variable
+            page_nodes = (("For", c.loop, val("m", c.loop), tuple(page_nodes)),)
     comps = {"outer": outer, "inner": inner}
     if c.deep:
         # one level deeper: the page renders `top`, whose template holds the unit
@@ -208,6 +212,15 @@ def cases(tier, mode):
                                             c2.vloop = None
                                             c2.alias_x = False
                                             yield c2
+                                        if thorough or (not da and not dfa and b is None and not pass_o):
+                                            for nl in (("x", "y") if thorough else ("x",)):
+                                                c5 = Case()
+                                                for f in Case.__slots__:
+                                                    setattr(c5, f, getattr(c, f))
+                                                c5.loop = nl
+                                                c5.vloop = None
+                                                c5.alias_x = False
+                                                yield c5
 
 
 # ------------------------------------------------------------------ pass-through family
